@@ -71,7 +71,30 @@ func c14Savepoint(c *lib.Ctx) {
 			}
 		}
 		x.logf("savepoint requested; its publication is held while the next periodic checkpoint completes at the operators")
+		// the source runners' acknowledgements of the NEXT checkpoint are held too, so that it cannot complete at
+		// the job (and have the savepoint's checkpoint dropped by retention) before the artifact is written
+		srRelease := make(chan struct{})
+		defer func() {
+			select {
+			case <-srRelease:
+			default:
+				close(srRelease)
+			}
+		}()
 		spID, err = x.cl.Job.HandleCreateSavepoint(context.Background())
+		x.cl.Lock()
+		sp := spID
+		x.cl.HoldSRAck = func(a cluster.SRAck) {
+			if a.ID > sp {
+				<-srRelease
+			}
+		}
+		x.cl.Unlock()
+		defer func() {
+			x.cl.Lock()
+			x.cl.HoldSRAck = nil
+			x.cl.Unlock()
+		}()
 		if err == nil {
 			select {
 			case <-held:
@@ -97,6 +120,22 @@ func c14Savepoint(c *lib.Ctx) {
 			}
 		}
 		close(release)
+		// once the artifact is written the next checkpoint may complete
+		if err == nil {
+			dl := time.Now().Add(cluster.Watchdog)
+			for time.Now().Before(dl) {
+				if uri, e2 := x.cl.Job.HandleGetSavepointURI(context.Background(), spID); e2 == nil {
+					if _, e3 := os.Stat(uri); e3 == nil {
+						break
+					}
+				}
+				time.Sleep(300 * time.Microsecond)
+			}
+		}
+		x.cl.Lock()
+		x.cl.HoldSRAck = nil
+		x.cl.Unlock()
+		close(srRelease)
 	case 2, 3: // while a periodic checkpoint is in progress: it must fold into it
 		release := make(chan struct{})
 		var once sync.Once
